@@ -712,6 +712,19 @@ def corpus():
                           {"prio": full(3), "hashes": [(1, "a1001"), (-1, "a1396")], "leaves": []},
                           {"prio": full(3), "hashes": [], "leaves": [(0, "a1001")]},
                           {"prio": full(3), "hashes": [(2, g2[2])], "leaves": [(0, g2[1])]}]})
+    # seeded C35-d (levels that only receive *computed* parents are never visited): a forged leaf pair with the
+    # hashes higher up withheld must be refused (NotEnoughHashesError), not kept with its computed parent
+    res.append({"n": 4, "T": ["a0", "a1", "a2", "a3"],
+                "calls": [{"prio": full(7), "hashes": [(0, g[0])], "leaves": []},
+                          {"prio": full(7), "hashes": [], "leaves": [(0, f3), (1, f4)]},
+                          {"prio": full(7), "hashes": [(4, g[4]), (2, g[2])], "leaves": [(0, g[3])]}]})
+    # seeded C35-e (building the BadHashError text for a conflict on node 0 raises another exception type, which
+    # bypasses the rollback): a planted forged node 1 followed by a wrong root value; then the forged leaves under it
+    res.append({"n": 4, "T": ["a0", "a1", "a2", "a3"],
+                "calls": [{"prio": full(7), "hashes": [(0, g[0])], "leaves": []},
+                          {"prio": full(7), "hashes": [(1, "P" + f3 + f4), (0, "a1000")], "leaves": []},
+                          {"prio": full(7), "hashes": [(4, f4)], "leaves": [(0, f3)]},
+                          {"prio": full(7), "hashes": [(4, g[4]), (2, g[2])], "leaves": [(0, g[3])]}]})
     return res
 
 
@@ -747,6 +760,14 @@ def small_functions(ctx):
             r = attempt(t.needed_for, i)
             add("idx %d needed_for %d" % (ln, i), r if r == "err" else (",".join(map(str, r)) or "-"), {"len": ln, "op": "needed_for", "i": i})
             add("idx %d depth_of %d" % (ln, i), str(hashtree.depth_of(i)), {"op": "depth_of", "i": i})
+        for i in ([0, 1, t.first_leaf_num - 1, t.first_leaf_num, ln - 1] if ln > 1 else [0]):
+            if 0 <= i < ln:
+                # the description used in BadHashError texts, built inside set_hashes' try block: every node incl. 0
+                try:
+                    nm = t._name_hash(i)
+                except Exception as e:  # noqa: reported as a disagreement, the run goes on
+                    nm = "exc-" + type(e).__name__
+                add("name %d %d %d" % (ln, t.first_leaf_num, i), nm, {"name_hash": ln, "i": i})
         add("dfs %d" % ln, ",".join("%d:%d" % x for x in t.depth_first()), {"dfs": ln})
         ctx.count("op:index-arithmetic")
     for x in range(0, 70):
